@@ -69,6 +69,16 @@ contract('parso.normalizer.Normalizer.add_issue',
          ensures=['forall(lambda i, j: implies(0 <= i and i < j and j < len(self.issues), '
                   'not (self.issues[i].code == self.issues[j].code and self.issues[i].start_pos == self.issues[j].start_pos)))'],
          modifies=['issues'], lists=['self.issues'], props=['C20'])
+# ... and it does record the issue (unless an equal one is there already): afterwards some issue carries the code, what was
+# there stays, whatever was added carries the code
+contract('parso.normalizer.Normalizer.add_issue#records',
+         params={'self': 'ref:Normalizer', 'node': 'ref:NodeOrLeaf', 'code': 'int', 'message': 'str'}, returns='bool',
+         requires=['node is not None', 'self.issues is not None'],
+         ensures=['exists(lambda k: 0 <= k and k < len(self.issues) and self.issues[k].code == code)',
+                  'forall(lambda k: implies(0 <= k and k < old(len(self.issues)), self.issues[k] is old(self.issues[k])), trigger=lambda k: self.issues[k])',
+                  'forall(lambda k: implies(old(len(self.issues)) <= k and k < len(self.issues), self.issues[k].code == code), trigger=lambda k: self.issues[k])',
+                  'len(self.issues) >= old(len(self.issues))'],
+         modifies=['issues'], lists=['self.issues'], props=['C20'])
 
 
 # ---- coverage (C13: every error leaf produces an issue on its line): ErrorFinder.visit_leaf on an error leaf that is not an
